@@ -18,10 +18,12 @@ impl Check for C05 {
             Phase { name: "AAD length-class grid", cases: 16, exhaustive: true },
             Phase { name: "carriers decoded from non-canonical wire forms (recipient standalone, nested to depth 2 in COSE_Encrypt, Encrypt, Encrypt0)", cases: scale(if q { 64000 } else { 400000 }, b), exhaustive: false },
             Phase { name: "adversarial near-collisions: context text prefixes, AAD that looks like a protected header", cases: scale(if q { 12000 } else { 60000 }, b), exhaustive: false },
+            Phase { name: "birthday: the structure of a built protected header with 2^17 pairwise distinct text labels", cases: 1, exhaustive: true },
         ]
     }
     fn run_case(&self, ctx: &mut Ctx, phase: usize, idx: u64) {
         match phase {
+            4 => birthday_structure_case(ctx, "Enc_structure"),
             0 => {
                 let o = if ctx.rng.coin() { Origin::Built } else { Origin::Wire };
                 let p = gen_prot_variant(ctx, o);
